@@ -83,6 +83,12 @@ def propagateGlobals (globals : List Arg) (autoHelpSub : Bool) (sc : Cmd) : Cmd 
   if sc.name == b_help && autoHelpSub then sc else
   sc.withArgs (globals.foldl (fun acc a => if acc.any (fun x => x.id == a.id) then acc else acc ++ [a]) sc.args)
 
+/-- the command-level `allow_hyphen_values` / `allow_negative_numbers` switches, applied to a BUILT arg of the level -/
+def cmdLevelArg (st : Settings) (a : Arg) : Arg :=
+  if a.takesValue then
+    { a with allowHyphen := a.allowHyphen || st.allowHyphenValues, allowNegative := a.allowNegative || st.allowNegativeNumbers }
+  else a
+
 /-- the body of `_build_self` for one level (subcommands receive globals but are not built yet);
 NOT idempotent on its own: a second run would add the help/version args again and re-run the arg build -/
 def buildSelfCore (c : Cmd) : Cmd :=
@@ -111,7 +117,7 @@ def buildSelfCore (c : Cmd) : Cmd :=
       argsOverrideSelf := s.argsOverrideSelf || st.argsOverrideSelf }
   let subs2 := (subs1.map inherit).map (propagateGlobals globals (!st.disableHelpSubcommand))
   let (args3, groups) := buildArgs args2 1 c.groups
-  (((c.withSettings st).withArgs args3).withGroups groups).withSubs subs2
+  (((c.withSettings st).withArgs (args3.map (cmdLevelArg st))).withGroups groups).withSubs subs2
 
 /-- `_build_self`: `if !self.is_set(AppSettings::Built) { … self.settings.set(Built) }` -/
 def buildSelf (c : Cmd) : Cmd := if c.settings.built then c else buildSelfCore c
